@@ -67,6 +67,56 @@ pub fn checks() -> Vec<Check> {
         budget_s: (45, 900),
     },
     Check {
+        id: "C02",
+        level: "model_checking",
+        stages: vec![
+            st("c02.s1", c02::s1, (0, 0), 3, "C01-S1 programs (255 residues x 6 prototypes x 3 point counts) judged by the independent validator/decoder"),
+            st("c02.s2", c02::s2, (0, 0), 3, "all programs of depth <=3/4 over the 30-op alphabet x 3 finalize modes (plain, identity transformer, transformer appending a foreign element)"),
+            st("c02.s4", c02::s4, (0, 0), 3, "C01-S4 programs (hooked capacity x point counts x every catalogue type)"),
+            st("c02.blobs", c02::blobs, (0, 0), 3, "blob + cylindrical image payload length 0..=1023 x 17 start residues"),
+        ],
+        extra: None,
+        rule: "every program of the listed spaces is written by the real writer and judged by e57spec (rules R1-R10: size, page CRCs, header fields, XML well-formedness/namespaces/names/types, offsets and section ids, section/packet lengths and alignment, exact stream byte counts, blob section length convention, overlap, decoded content == harness record); distinct = distinct file bytes",
+        assumptions: &[
+            "e57spec encodes the ASTM E2807 layout as observed in the libE57Format/E57RefImpl-written files bundled in /repo/testdata (all of which it validates without complaint)",
+            "element names not present in any bundled foreign file are taken from the standard from memory (listed in DESIGN.md §5 C02)",
+        ],
+        budget_s: (50, 900),
+    },
+    Check {
+        id: "C03",
+        level: "model_checking",
+        stages: vec![
+            st("c03.layout", c03::layout, (2, 3), 3, "10 scenes x all layouts with <=2 (quick) / <=3 (thorough) deviations over packets, cuts, index/ignored packets, data/index offsets, section order, gaps {4,1000,1016}, omitted default attributes, XML lexical forms"),
+            st("c03.gaps", c03::gaps, (1, 2), 3, "10 scenes x every gap 4..1020 before every section and before the XML (all 255 aligned start residues); thorough: all pairs"),
+            st("c03.cuts", c03::cuts, (2, 2), 3, "10 scenes encoded with 2 (thorough 3) data packets per cloud x every byte cut of every record stream, all pairs of cuts, x index/ignored packets"),
+            st("c03.xml", c03::xml, (3, 4), 3, "10 scenes x all combinations of <=3 (thorough <=4) XML lexical / omitted-attribute deviations"),
+        ],
+        extra: None,
+        rule: "deviation-bounded DFS over the layout choice points of the independent encoder; every emitted file is first validated and decoded by e57spec itself (self round trip), then read by the real reader; distinct = distinct file bytes; non-trivial = non-canonical layout",
+        assumptions: &[
+            "only layouts libE57Format accepts are offered (packets skipped by length, empty byte streams, <4 padding bytes, 4-byte aligned sections, infoset-preserving lexical variants)",
+            "scenes are 10 fixed small scenes (<=5 points per cloud)",
+        ],
+        budget_s: (50, 900),
+    },
+    Check {
+        id: "C05",
+        level: "model_checking",
+        stages: vec![
+            st("c05.view", c05::view_space, (2, 3), 3, "3 coordinate kinds x 6 poses; <=2/3 deviations over attribute presence (states, flags, colour, intensity, row/col), coordinate type, out-of-set state values (3,-1,255 at first/middle/last point), packetisation; every case under all 64 option vectors"),
+            st("c05.scenes", c05::scenes_space, (2, 2), 3, "the 10 C03 scenes under <=2 layout deviations (packets, cuts, index/ignored packets, gaps) x 8 option vectors"),
+        ],
+        extra: None,
+        rule: "deviation-bounded DFS; each case is an e57spec-encoded file read by the real simple iterator under every option vector and compared point by point with an independent 'documented view' function of the encoded raw values; evaluations = (case, option vector) pairs; non-trivial = all 64 vectors compared",
+        assumptions: &[
+            "trigonometric and pose results compared within relative 1e-9, normalised values within one f32 ulp",
+            "where the statement is silent (Cartesian direction derived from a spherical direction and vice versa) both Invalid and the converted direction are accepted",
+            "an Err is accepted if anywhere in the cloud an invalid-state value outside its documented set is stored",
+        ],
+        budget_s: (50, 900),
+    },
+    Check {
         id: "C06",
         level: "model_checking",
         stages: vec![
@@ -100,6 +150,24 @@ pub fn checks() -> Vec<Check> {
             "API misuse outside the listed classes (add_point after finalize, second finalize) is judged by no-panic and by read-back of whatever finalize reported as success",
         ],
         budget_s: (45, 900),
+    },
+    Check {
+        id: "C13",
+        level: "model_checking",
+        stages: vec![st(
+            "c13.normalise",
+            c13::normalise,
+            (0, 0),
+            3,
+            "22 attribute types x 18 limit shapes x {intensity, red, green, blue} x normalisation on/off; per case every stored value of the range (<=4097) or boundaries + mini-float lattice",
+        )],
+        extra: None,
+        rule: "full product; each case is an e57spec-encoded cloud holding the whole stored-value list, read by the real simple iterator with normalisation on and off; invariants (in [0,1], not NaN, monotone) on every value, equality with clamp((v-lo)/(hi-lo)) within 2.4e-7; non-trivial = both switch settings judged",
+        assumptions: &[
+            "ambiguous limits (variant differing between min and max, ScaledInteger limits) accept either the limit range, the type range or the scaled limit range, the same for all values of a cloud",
+            "limits that are not a range (lo > hi, NaN) only require the invariants; an Err from the reader is accepted there",
+        ],
+        budget_s: (50, 900),
     },
     Check {
         id: "C14",
